@@ -188,6 +188,23 @@ impl Drop for Tracked {
 }
 
 pub fn show_obj(sched: &Sched, id: u64, m: &Metrics) -> String {
+    // the accessors must tell the same story as the fields they are computed from: `age()` is
+    // the time since `created`, `last_used()` the time since `recycled` (since `created` before
+    // the first reuse). `Instant` is monotonic, so each reading lies between two readings of
+    // the field taken around it - whatever the load on the machine
+    let c0 = m.created.elapsed();
+    let age = m.age();
+    let c1 = m.created.elapsed();
+    let base = m.recycled.unwrap_or(m.created);
+    let l0 = base.elapsed();
+    let used = m.last_used();
+    let l1 = base.elapsed();
+    if age < c0 || age > c1 {
+        sched.event(format!("accessor({},{},age)", cur_op(), id));
+    }
+    if used < l0 || used > l1 {
+        sched.event(format!("accessor({},{},last_used)", cur_op(), id));
+    }
     format!(
         "{}:{}:{}:{}",
         id,
